@@ -1335,7 +1335,9 @@ class PathLossMetisPS7(PathLossIndoorBase):
         A = 36.8
         B = 43.8
         C = 20
-        X = 5 * (num_walls - 1)
+        # Note: 5. and not 5, such that a number of walls given as a narrow
+        # numpy integer (int8, uint8) cannot overflow
+        X = 5. * (num_walls - 1)
 
         # self.fc is in MHz
         fc_GHz = self.fc / 1e3
@@ -1431,7 +1433,9 @@ class PathLossMetisPS7(PathLossIndoorBase):
         A = 36.8
         B = 43.8
         C = 20
-        X = 5 * (num_walls - 1)
+        # Note: 5. and not 5, such that a number of walls given as a narrow
+        # numpy integer (int8, uint8) cannot overflow
+        X = 5. * (num_walls - 1)
 
         # self.fc is in MHz
         fc_GHz = self.fc / 1e3
